@@ -623,6 +623,13 @@ class C05(PropCheck):
                     tag = " [fault fired inside a nested extract_outermost call]" if p.fired_in_outermost else ""
                     problems.append(f"{kind}#{k} ({type(p.fired).__name__}): {f}{tag}")
                     continue
+                if kind in ("contexts_active_in_frame", "elaborate_context", "unwrap_context", "unwrap_context_generator") and not p.fired_in_outermost \
+                        and [g[0] for g in map(frame_sig, st.frames)] != [b[0] for b in base_sig]:
+                    # a fault in the analysis or the hooks of a frame's CONTEXTS costs context information, never frames: the frame
+                    # itself and everything inward of it are still there
+                    problems.append(f"{kind}#{k}: a fault at the context level changed the frame series: {len(st.frames)} frames, "
+                                    f"fault-free {len(base.frames)}")
+                    continue
                 n = len(p.emitted_at_fault)
                 got = [frame_sig(f) for f in st.frames[:n]]
                 if [g[0] for g in got] != p.emitted_at_fault or got != base_sig[:n]:
